@@ -306,3 +306,38 @@ Theorem C07_checker_graph_covers_planner_graph : forall pm args,
   wfb pm args = true -> (~ exists u, path (succ_of pm) u u) -> acyclic (core_pm pm).
 Proof. exact acyclic_core. Qed.
 Print Assumptions C07_checker_graph_covers_planner_graph.
+
+(* ------------------------------------------------------------------ C08 *)
+(* verifyArgsUsed reports exactly the direct items (nested sets, providers incl. struct providers, values,
+   bindings, field providers) whose source is absent from solve's used list *)
+Theorem C08_unused_reported_exactly : forall id imports provs sprovs vals flds binds used d,
+  In d (verify_args_used (RSet id imports provs sprovs vals flds binds) used) <->
+  (exists s, In s imports /\ used_in used (SImport (rset_id s)) = false /\ d = DUnusedSet (rset_id s)) \/
+  (exists p, In p (all_provs provs sprovs) /\ used_in used (SProv (pv_id p)) = false /\ d = DUnusedProv (pv_id p)) \/
+  (exists v, In v vals /\ used_in used (SVal (vl_id v)) = false /\ d = DUnusedVal (vl_id v)) \/
+  (exists b, In b binds /\ used_in used (SBind (bd_id b)) = false /\ d = DUnusedBind (bd_id b)) \/
+  (exists f, In f flds /\ used_in used (SField (fd_id f)) = false /\ d = DUnusedField (fd_id f)).
+Proof. exact verify_args_used_spec. Qed.
+Print Assumptions C08_unused_reported_exactly.
+
+(* whatever is called is in the used list (so it is never reported unused), and everything in the used list
+   has a source in the set *)
+Theorem C08_called_is_used : forall pmc given fuel stk s u s' u',
+  machine2 pmc given fuel stk s u = Some (s', u') ->
+  (forall c, In c (calls s) -> In (Solve.c_out c) u) -> forall c, In c (calls s') -> In (Solve.c_out c) u'.
+Proof. exact machine2_calls_used. Qed.
+Print Assumptions C08_called_is_used.
+
+Theorem C08_used_have_source : forall pmc given fuel stk s u s' u',
+  machine2 pmc given fuel stk s u = Some (s', u') ->
+  (forall x, In x u -> pmc x <> None) -> forall x, In x u' -> pmc x <> None.
+Proof. exact machine2_used_have_source. Qed.
+Print Assumptions C08_used_have_source.
+
+(* ------------------------------------------------------------------ C11 (shared instance) *)
+(* the value of an interface key is, by specification, the value of the concrete type it is bound to:
+   no second construction *)
+Theorem C11_shared_instance : forall pm t pv v,
+  pm t = Some pv -> conc pv <> t -> val pm (conc pv) v -> val pm t v.
+Proof. exact val_alias. Qed.
+Print Assumptions C11_shared_instance.
